@@ -68,6 +68,10 @@ def c18_1(ctx, ss):
     sf, sflow = fn(ss, MDECAY, "ModelDecay.structure")
     r = returns(sf)
     oks = sorted(txt(x.value) for x in r) == sorted(["[d.structure for d in self.daughters]", "self.particle"])
+    for x in r:
+        conds = [(txt(e), pol) for kind, e, pol in guards.path_conditions(sf.node, x) if kind == "if"]
+        if txt(x.value).startswith("[") and conds != [("self.daughters", True)]:
+            oks = False
     (ctx.holds if oks else ctx.violation)("C18.1", ckey(sf, None, "structure"), where(sf, sf.node),
                                           "structure = nested list of the daughters' structures, leaves = particles" if oks else "ModelDecay.structure changed shape")
 
@@ -228,6 +232,25 @@ def c18_4(ctx, ss):
             (ctx.holds if handled else ctx.violation)("C18.4", k + f" :: {cls_}", where(mf_, mf_.node),
                                                        f"{cls_}.make_lineshape handles LS.{m}" if handled else f"{cls_}.make_lineshape has no branch for LS.{m}: such amplitudes cannot be emitted")
     ctx.floor("C18.4", "LS members", len(ls), 4)
+    # which tag gives which kind
+    wantk = {"RBW": ("not self.lineshape", True), "GSpline": ("self.lineshape == 'GSpline.EFF'", True), "kMatrix": ("self.lineshape.startswith('kMatrix')", True),
+             "FOCUS": ("self.lineshape.startswith('FOCUS')", True)}
+    for r in returns(ff):
+        m = txt(r.value).split(".")[-1]
+        if m in wantk:
+            conds = [(txt(e), pol) for kind, e, pol in guards.path_conditions(ff.node, r) if kind == "if" and pol]
+            ok = bool(conds) and conds[0] == wantk[m] if m != "RBW" else conds == [wantk[m]]
+            ok = (wantk[m] in conds)
+            (ctx.holds if ok else ctx.violation)("C18.4", f"{ACHAIN}:LS.{m} :: tag", where(ff, r), f"LS.{m} ⇐ {wantk[m][0]}" if ok else f"LS.{m} is chosen under {conds}, expected `{wantk[m][0]}`")
+    lf, lflow = fn(ss, ACHAIN, "AmplitudeChain.L")
+    rl = returns(lf)
+    okL = False
+    for r in rl:
+        if "index(self.spinfactor)" in txt(r.value):
+            conds = [(txt(e), pol) for kind, e, pol in guards.path_conditions(lf.node, r) if kind == "if"]
+            okL = conds == [("self.spinfactor", True)] and txt(r.value) == "'S P D F'.split().index(self.spinfactor)"
+    (ctx.holds if okL else ctx.violation)("C18.4", f"{ACHAIN}:AmplitudeChain.L", where(lf, lf.node),
+                                          "a written spin tag S/P/D/F gives L = 0/1/2/3" if okL else "the orbital momentum is no longer the index of the written spin tag in 'S P D F'")
     # spin-factor table
     mf = pf.module_facts(ss, GOOFIT)
     if "known_spinfactors" not in mf.globals_:
